@@ -296,12 +296,74 @@ pub fn exh_size(depth: u32) -> u64 {
     sets * 14u64.pow(depth) * 4 * 216
 }
 
+/// C01: CounterZero cycles — states that send each other CounterZero while re-arming the other
+/// counter with Set/Increment, so that only the once-per-call guard bounds the recursion.
+fn gen_czcycle(p: &mut Prng, id: String) -> FwCase {
+    use enum_map::enum_map;
+    use maybenot::action::Action;
+    use maybenot::counter::{Counter, Operation};
+    use maybenot::dist::{Dist, DistType};
+    use maybenot::event::Event;
+    use maybenot::state::{State, Trans};
+    let k = |v: f64| Dist { dist: DistType::Uniform { low: v, high: v }, start: 0.0, max: 0.0 };
+    let nm = p.range(1, 2) as usize;
+    let mut machines = Vec::new();
+    for _ in 0..nm {
+        let ns = p.range(2, 3) as usize;
+        let mut states = Vec::new();
+        for si in 0..ns {
+            let mut t = enum_map! { _ => vec![] };
+            t[Event::CounterZero] = vec![Trans(p.below(ns as u64) as usize, 1.0)];
+            t[Event::NormalSent] = vec![Trans(p.below(ns as u64) as usize, 1.0)];
+            t[Event::NormalRecv] = vec![Trans((si + 1) % ns, 1.0)];
+            if p.chance(1, 3) {
+                t[Event::LimitReached] = vec![Trans(p.below(ns as u64) as usize, 1.0)];
+            }
+            let mut st = State::new(t);
+            let ctr = |p: &mut Prng| -> Option<Counter> {
+                match p.below(7) {
+                    0 => None,
+                    1 => Some(Counter::new_dist(Operation::Set, k(0.0))),
+                    2 => Some(Counter::new_dist(Operation::Set, k(1.0))),
+                    3 => Some(Counter::new(Operation::Decrement)),
+                    4 => Some(Counter::new(Operation::Increment)),
+                    5 => Some(Counter::new_copy(Operation::Set)),
+                    _ => Some(Counter::new_dist(Operation::Decrement, k(5.0))),
+                }
+            };
+            st.counter = (ctr(p), ctr(p));
+            if p.chance(1, 2) {
+                st.action = Some(Action::SendPadding { bypass: false, replace: false, timeout: k(si as f64), limit: if p.chance(1, 2) { Some(k(1.0)) } else { None } });
+            }
+            states.push(st);
+        }
+        machines.push(Machine::new(1000, 0.0, 0, 0.0, states).expect("czcycle machine"));
+    }
+    let ncalls = p.range(2, 12);
+    let mut calls = Vec::new();
+    let mut t: i128 = 0;
+    for _ in 0..ncalls {
+        t += 1000;
+        let len = p.range(1, 3);
+        let evs: Vec<TriggerEvent> = (0..len)
+            .map(|_| match p.below(4) {
+                0 | 1 => TriggerEvent::NormalSent,
+                2 => TriggerEvent::NormalRecv,
+                _ => TriggerEvent::PaddingSent { machine: MachineId::from_raw(p.below(nm as u64 + 1) as usize) },
+            })
+            .collect();
+        calls.push((t, evs));
+    }
+    FwCase { id, kind: "czcycle".into(), machines, fp: 0.0, fb: 0.0, t0: 0, calls, rng_seed: p.next(), extreme: 0, ni: None, prefix: vec![] }
+}
+
 pub fn gen_kind(kind: &str, p: &mut Prng, id: String) -> Option<FwCase> {
     match kind {
         "c07" => Some(gen_c07(p, id)),
         "c08" => Some(gen_c08(p, id)),
         "c09" => Some(gen_c09(p, id)),
         "ni" => Some(gen_ni(p, id)),
+        "czcycle" => Some(gen_czcycle(p, id)),
         _ => None,
     }
 }
